@@ -154,6 +154,20 @@ CLAIMED["C10"] = dict(
     note="Trusted: Lean kernel, harness/door, tools/extract.py (regex translation of the two match tables), http crate authority parsing "
          "(parsed view is a model input), HTTP/3 not driven.",
 )
+CLAIMED["C07"] = dict(
+    text="Unbounded Lean theorems about the UDP multiplexer model (the pipe's flow table coupled to the forwarder's socket table, in a "
+         "world of servers that answer to the socket a flow last spoke from), for every history of client datagrams, replies, clock "
+         "advances and close over any flow set and any mix of live, port-53, dead and unconnectable destinations: a datagram reaches "
+         "exactly its destination; a reply is delivered labelled with the flow of the socket it arrived on, which is the flow the server "
+         "answered; both tables hold the same flows once each, so sockets = gauge = live flows; a flow untouched for more than timeout + "
+         "timeout/4 is gone from both tables wherever the ticks fell, and none is released early; a port-53 flow is released by the reply "
+         "that answers its last query; a later datagram starts a fresh socket; operations on one flow leave every other flow's entry and "
+         "socket untouched; only the client going away ends the multiplexer. Tied to the code by ~160 (1500) histories per run through "
+         "the real udp_pipe::DuplexPipe + direct forwarder over loopback sockets under a paused clock, observed after every operation.",
+    note="Trusted: Lean kernel, harness/door, Linux loopback UDP and tokio timer semantics as listed in the evidence. Operations are atomic "
+         "in the model; a tick landing inside one datagram's processing is a runtime interleaving the suite cannot exhibit (partial there). "
+         "The SOCKS5 multiplexer shares the contract but is not driven here.",
+)
 CLAIMED["C19"] = dict(
     text="Unbounded Lean theorems about the shutdown model, for every operation history: a participant registered before a submission "
          "gets Ok from its next (or pending) wait whatever else is interleaved (repeated submits, other participants, completion polls); "
@@ -190,4 +204,4 @@ CLAIMED["C20"] = dict(
     technique="Lean 4 non-interference theorems for the scrubbers + kernel-decided generated log-site table + dynamic canary search",
 )
 NOT_CLAIMED = {p: "not yet built in this framework (planned, see DESIGN.md section 5)" for p in
-               ["C07", "C16", "C17"]}
+               ["C16", "C17"]}
